@@ -10,7 +10,8 @@ Every history call is scheduled on a `TestScheduler` at its virtual time `t` (`s
 at the same instant run in list order) and the scheduler is started once; the subject is `ReplaySubject(buffer, window, scheduler)`,
 so every delivery goes through the per-subscriber `ScheduledObserver` and the scheduler's queue.  User conventions as in C20.
 
-Output: {"logs": [[[t, entry], ...] per observer], "xs": [[i, name], ...], "raised": [[k, name], ...], "crashed": null | name}
+Output: {"logs": [[[t, entry], ...] per observer], "xs": [[i, name], ...], "raised": [[k, name], ...], "crashed": null | name,
+         "order": [["call", k, now, len(subject.observers)] | ["sub", j, now] | ["unsub", j] | ["dispose"] | ["cb", i, now], ...]}
 (`t` = virtual time of the callback; `raised` = exceptions seen by the caller of history call k; `crashed` = an exception that
 escaped from a scheduled `run` action out of `scheduler.start()`: only possible when an error reaches an observer without `on_error`).
 """
@@ -21,7 +22,16 @@ from props import C20 as base
 LEAN_TARGETS = ["RxProofs.C22"]
 DRIVER = "drv_subj"
 DRIVER_ROOT = "Subj"
-THEOREMS = []
+THEOREMS = [
+    "C22.replay_retained_spec",
+    "C22.retained_unique",
+    "C22.replay_prefix",
+    "C22.replay_live",
+    "C22.replay_fifo",
+    "C22.replay_all_delivered",
+    "C22.replay_dispose_stops",
+    "C22.run_reachable",
+]
 
 VALS = base.VALS
 
@@ -108,7 +118,7 @@ def gen_case(rng, tier):
 
 
 def cases(rng, tier):
-    for _ in range(fw.tier_scale(tier, 2500, 25000)):
+    for _ in range(fw.tier_scale(tier, 3000, 80000)):
         yield gen_case(rng, tier)
 
 
@@ -137,14 +147,17 @@ class _Env(base._Env):
 
 
 def impl(case):
-    # the scheduler loop cannot spin forever on the current code; a watchdog turns a hang (e.g. of a mutated tree) into a harness error
+    # the scheduler loop cannot spin forever on the current code; a generous watchdog turns a hang (e.g. of a mutated tree) into a harness error
     import signal
 
+    import reactivex.subject  # noqa: F401  (first import may be slow under load: keep it outside the watchdog window)
+    import reactivex.testing  # noqa: F401
+
     def on_alarm(signum, frame):
-        raise TimeoutError("replay history did not finish within 20 s")
+        raise TimeoutError("replay history did not finish within 120 s")
 
     old = signal.signal(signal.SIGALRM, on_alarm)
-    signal.alarm(20)
+    signal.alarm(120)
     try:
         return _impl(case)
     finally:
@@ -164,7 +177,7 @@ def _impl(case):
 
     def mk(k, c):
         def action(scheduler, state=None):
-            env.order.append(["call", k, int(sched.clock)])
+            env.order.append(["call", k, int(sched.clock), len(subject.observers)])
             try:
                 if c[0] == "next":
                     subject.on_next(fw.dec(c[1]))
@@ -361,3 +374,30 @@ def shrink(case):
         c = dict(case); c["window"] = None; yield c
     if case["buffer"] is not None:
         c = dict(case); c["buffer"] = None; yield c
+
+
+RULE = ("timed call histories of 1..30 calls (thorough: ..60) of sub/unsub/next/error/completed/dispose over 1..5 observers with reaction scripts, "
+        "scheduled on a TestScheduler (arbitrary, also unsorted and equal, virtual times; bursts of >100 same-instant actions that trigger the "
+        "scheduler's spin counter) against ReplaySubject(buffer_size in {None,0..4}, window in {None, shorter / longer than the history, exactly the "
+        "age of a value at a subscription}); values incl. None/0/False/''/0.0/()/[]/{}; compared: per-observer timed notification sequence, "
+        "exceptions per call, exception escaping start(), and the global order of calls / subscriptions / unsubscriptions / callbacks; "
+        "non-trivial = at least two call kinds and at least one delivery")
+ASSUMPTIONS = ["single-threaded execution on a virtual-time scheduler (what the property quantifies over); integer virtual times",
+               "every history call is scheduled up front with schedule_absolute and start() is called once",
+               "callbacks do not emit into the subject re-entrantly; user conventions as in C20 (one subscription per observer id, "
+               "reaction actions individually wrapped in try/except)"]
+TRUSTED_EXTRA = ["the model of VirtualTimeScheduler.start / PriorityQueue inside RxModel/SubjReplay.lean (stable (due, insertion) order, clock, "
+                 "spin counter) is tied to the code by this correspondence only; C28/C29 own the scheduler's theorems"]
+LEVEL_TEXT = ("Lean theorems over a model of ReplaySubject + per-subscriber ScheduledObserver/AutoDetachObserver + the virtual-time scheduler's queue: "
+              "(1) in every reachable state the queue is the longest suffix of everything accepted with <= buffer_size items whose age is within the "
+              "window, and _trim(now) at any later instant yields exactly the part retained at `now` (age == window retained, as the code does); "
+              "(2) a new subscriber is queued exactly retained(now) ++ terminal-if-any, an accepted notification is queued exactly once for exactly the "
+              "current observers and nothing else queues anything; (3) the ScheduledObserver is a FIFO (handed-over ++ still-queued = queued) and the "
+              "user has seen exactly what was handed over while live, a prefix afterwards; (4) when start() returns normally every undisposed "
+              "ScheduledObserver is drained (liveness invariant over the scheduler queue); (5) a stopped observer sees nothing more. All by induction "
+              "over the scheduler's steps for unbounded histories, any buffer_size/window (0 and None included), any reaction scripts.")
+LEVEL_NOTE = ("The prefix-then-live statement is split into per-step characterisations plus invariants (FIFO, prefix, drained-at-quiescence) rather than "
+              "one closed formula for the final log; 'later notifications' = those accepted while the observer is in `observers`. The default "
+              "CurrentThreadScheduler (trampoline) variant of ReplaySubject is not modelled (virtual time only, as the property states). An error reaching "
+              "an observer without on_error handler escapes from the run action out of start(): modelled (`crashed`) and compared, outside the theorems' "
+              "liveness claim. Thread interleavings of ScheduledObserver belong to C32.")
